@@ -4,6 +4,7 @@
      "serve_call" a | "up" a | "serve_ret" a out        out in {"returned", "already_running", "closed_error"}
      "shutdown_call" a | "shutdown_ret" a               serving   = server.is_serving() read at that moment
      "close_call" a | "close_ret" a out                 out in {"returned", "busy"};  listening = some listener still open
+     "tstart_call" a | "tstart_ret" a                    NetworkServerThread(server).start()
      "probe" serving listening                          a quiescent observation (nothing is in flight)
      "end"                                              every call has returned
    Laws: one serving call at a time, a concurrent one is refused with ServerAlreadyRunning and only then; a server whose
@@ -27,11 +28,21 @@ ServeCall == /\ IsEvent("serve_call") /\ pending' = pending \cup {Call("serve")}
                 ELSE /\ owner' = Ev.a /\ phase' = "setup" /\ UNCHANGED refused
                      /\ bornClosed' = (IF closeReturned THEN bornClosed \cup {Ev.a} ELSE bornClosed)
              /\ UNCHANGED <<closeSeen, closeReturned>>
-Up == /\ IsEvent("up") /\ owner = Ev.a /\ phase = "setup" /\ phase' = "up"
-      /\ UNCHANGED <<owner, refused, closeSeen, closeReturned, pending, bornClosed>>
+\* Two serve_forever calls that are in flight together race for the server's locks: the order of the "serve_call" events does not decide
+\* the winner.  As long as the presumed owner has not come up, a call presumed refused may turn out to be the one that serves.
+Up == /\ IsEvent("up") /\ phase = "setup"
+      /\ \/ owner = Ev.a /\ UNCHANGED <<owner, refused>>
+         \/ owner # 0 /\ Ev.a \in refused /\ owner' = Ev.a /\ refused' = (refused \ {Ev.a}) \cup {owner}
+      /\ phase' = "up"
+      /\ UNCHANGED <<closeSeen, closeReturned, pending, bornClosed>>
 ServeRet == /\ IsEvent("serve_ret") /\ Call("serve") \in pending /\ pending' = pending \ {Call("serve")}
             /\ IF Ev.a \in refused
                THEN Ev.out = "already_running" /\ refused' = refused \ {Ev.a} /\ UNCHANGED <<owner, phase, bornClosed>>
+               ELSE IF owner = Ev.a /\ Ev.out = "already_running"
+               THEN \* the presumed owner lost the race: one of the calls presumed refused is the active one
+                    /\ phase = "setup" /\ refused # {}
+                    /\ \E b \in refused : owner' = b /\ refused' = refused \ {b}
+                    /\ UNCHANGED <<phase, bornClosed>>
                ELSE /\ owner = Ev.a /\ Ev.out # "already_running"
                     /\ (Ev.out = "closed_error" => closeSeen)
                     /\ (Ev.a \in bornClosed => Ev.out = "closed_error")
@@ -53,8 +64,11 @@ Probe == /\ IsEvent("probe") /\ pending \subseteq {c \in pending : c[1] = "serve
          /\ (Ev.serving => owner # 0 /\ phase = "up" /\ ~closeReturned)
          /\ (closeReturned => ~Ev.listening /\ ~Ev.serving)
          /\ UNCHANGED vars
+\* NetworkServerThread.start(): returns once the server is up or its serve_forever() has ended - it has to return
+TStartCall == IsEvent("tstart_call") /\ pending' = pending \cup {Call("tstart")} /\ UNCHANGED <<owner, phase, refused, closeSeen, closeReturned, bornClosed>>
+TStartRet == IsEvent("tstart_ret") /\ Call("tstart") \in pending /\ pending' = pending \ {Call("tstart")} /\ UNCHANGED <<owner, phase, refused, closeSeen, closeReturned, bornClosed>>
 End == IsEvent("end") /\ pending = {} /\ owner = 0 /\ UNCHANGED vars
-TNext == ServeCall \/ Up \/ ServeRet \/ ShutdownCall \/ ShutdownRet \/ CloseCall \/ CloseRet \/ Probe \/ End
+TNext == TStartCall \/ TStartRet \/ ServeCall \/ Up \/ ServeRet \/ ShutdownCall \/ ShutdownRet \/ CloseCall \/ CloseRet \/ Probe \/ End
 ASSUME \A x \in 1..Len(Traces) : TLCSet(x, 0)
 Constr == TLCSet(tid, IF TLCGet(tid) > l THEN TLCGet(tid) ELSE l)
 Post == LET bad == {x \in 1..Len(Traces) : TLCGet(x) <= Len(Traces[x].events)} IN
